@@ -299,6 +299,23 @@ def rand_worker(arg: tuple) -> dict:
     return res
 
 
+def final_coverage_zero(res: dict) -> list:
+    """Actions never taken according to the LAST coverage snapshot of a TLC run (run_tlc's `coverage_zero`
+    also counts the intermediate snapshots TLC prints every minute, where late actions still show 0)."""
+    import re as _re
+
+    out = res.get("out", "")
+    k = out.rfind("The coverage statistics at")
+    if k < 0:
+        return sorted(res.get("coverage_zero") or [])
+    zero = []
+    for line in out[k:].splitlines():
+        m = _re.match(r"^<(\w+) line \d+, col \d+ to line \d+, col \d+ of module \w+>: (\d+):(\d+)", line.strip())
+        if m and int(m.group(3)) == 0:
+            zero.append(m.group(1))
+    return sorted(set(zero))
+
+
 def _isolated(fn, arg):
     """fn(arg) in a fresh single-use process; returns (result, crashed)."""
     import concurrent.futures as cf
@@ -392,13 +409,14 @@ def run(ctx: Ctx) -> None:
     items = []
     model_bad = []
     for j, res in zip(jobs, results):
+        res["coverage_zero"] = final_coverage_zero(res)
         ctx.add_tlc(res)
         ctx.log(f"TLC {j[0]}: {res.get('distinct')} states, {res['wall_s']} s, violated={res['violated']}")
         if res["violated"]:
             model_bad.append((j[0], res["violated"]))
             continue
-        if res.get("coverage_zero"):
-            ctx.notes.append(f"{j[0]}: spec actions never taken: {res['coverage_zero']}")
+        if final_coverage_zero(res):
+            ctx.notes.append(f"{j[0]}: spec actions never taken: {final_coverage_zero(res)}")
         p = parse_objects(res["out"], j[1])
         if not p:
             raise MachineryError(f"no objects printed by TLC for {j[0]}")
